@@ -2,7 +2,7 @@
    non-negative weights summing to 1 (so accepted mass + rejected mass = 1), for every DAG whose
    weighted nodes carry well-formed cumulative weights.  Discharges the [wf_tree (attempt ...)]
    hypothesis of [rejection_probability]. *)
-From Coq Require Import QArith ZArith List Bool Lia.
+From Coq Require Import QArith ZArith List Bool Lia Qround.
 From Scenic Require Import C01.Prob C01.ProbProofs C01.ChoiceProofs C01.Sampler C01.Prior
   C01.SamplerProofs C01.RejectionProofs C01.ReachProofs.
 Import ListNotations.
@@ -66,6 +66,12 @@ Proof.
   destruct (Z.to_nat (hi - lo + 1)) eqn:E; [lia|]. simpl. discriminate.
 Qed.
 
+Lemma wf_ndrange lo hi : wf_tree (ndrange_tree lo hi).
+Proof.
+  unfold ndrange_tree. destruct (Z.ltb (Qfloor hi) (Qceiling lo)) eqn:E; [exact I|].
+  apply wf_randint. apply Z.ltb_ge in E. exact E.
+Qed.
+
 Lemma wf_ret_bind {A B} (t : ptree A) (f : A -> B) : wf_tree t -> wf_tree (bind t (fun a => Ret (f a))).
 Proof. intros W. apply wf_bind; [exact W|]. intros a. exact I. Qed.
 
@@ -75,11 +81,11 @@ Proof.
   intros G. unfold sem. destruct (all_some ovs) as [vs|]; [|exact I].
   destruct k; try exact I.
   - (* KDRange *)
-    destruct vs as [|[lo|?|] [|[hi|?|] [|? ?]]]; try exact I.
-    destruct (Z.ltb hi lo) eqn:E; [exact I|].
-    apply wf_ret_bind. apply wf_randint. apply Z.ltb_ge in E. exact E.
+    destruct vs as [|a [|b [|? ?]]]; try exact I.
+    destruct (num a) as [lo|]; [|exact I]. destruct (num b) as [hi|]; [|exact I].
+    apply wf_ret_bind. apply wf_ndrange.
   - (* KDRangeW *) apply wf_ret_bind. apply wf_choices_tree. exact G.
-  - (* KMux *) destruct vs as [|[i|?|] opts]; exact I.
+  - (* KMux *) destruct vs as [|[i|?|?|] opts]; exact I.
   - (* KUniStar *)
     destruct (expand starred (removelast vs)); [|exact I]. destruct (last vs VErr); exact I.
   - (* KFun *) destruct (expand starred vs); exact I.
